@@ -11,7 +11,7 @@ import itertools
 import multiprocessing as mp
 
 SPECS = []
-OPS = ["register_safe", "register_unsafe", "remove_name", "remove_prefix", "set_metadata", "lookup"]
+OPS = ["register_safe", "register_unsafe", "remove_name", "remove_prefix", "set_metadata", "lookup", "lookup_meta"]
 KNOWN = "C15-remove-is-not-atomic"
 
 
